@@ -70,3 +70,25 @@ def fresh(x):
     if isinstance(x, float):
         return float(repr(x))
     return x
+
+
+# node labels of assorted hashable types (a falsy one, nested tuples, long strings); none can be confused with a number
+NODE_LABELS = [("n", 0), "node-b", ("q", (1, 2)), "", ("n", 4), "zz-5", ("r",), "seven"]
+
+
+def unlabel(obj, inv):
+    """replace every label by its node number inside nested lists / tuples / sets / frozensets / dicts"""
+    try:
+        if obj in inv:
+            return inv[obj]
+    except TypeError:
+        pass
+    if isinstance(obj, dict):
+        return {unlabel(k, inv): unlabel(v, inv) for k, v in obj.items()}
+    if isinstance(obj, (list, tuple, set, frozenset)):
+        return type(obj)(unlabel(x, inv) for x in obj)
+    return obj
+
+
+# mutually orderable labels (increasing like the node numbers they stand for), the first one falsy
+ORD_LABELS = [(), ("a",), ("a", "b"), ("b",), ("b", "a"), ("c",), ("c", "c"), ("d",)]
